@@ -239,6 +239,11 @@ class DistBeta(DistContinuous):
         """
         y1 = self._dist1.draw()
         y2 = self._dist2.draw()
+        while y1 + y2 == 0.0:
+            # both gamma variates underflowed to zero (very small shape
+            # parameters, or the smallest stream outputs): draw again
+            y1 = self._dist1.draw()
+            y2 = self._dist2.draw()
         return y1 / (y1 + y2)
 
     def probability_density(self, x: float) -> float:
@@ -1350,7 +1355,9 @@ class DistPearson5(DistContinuous):
         Draw a value from the Pearson5 distribution. Based on the algorithm in 
         Law & Kelton, Simulation Modeling and Analysis, 1991, p. 492-493.
         """
-        return 1.0 / self._dist.draw()
+        y: float = self._dist.draw()
+        # a gamma variate that underflowed to zero has an infinite reciprocal
+        return 1.0 / y if y > 0.0 else math.inf
 
     def _set_stream(self, stream: StreamInterface):
         """Internal method to initialize the underlying distribution when
@@ -1439,7 +1446,14 @@ class DistPearson6(DistContinuous):
         beta/beta = 1, without the scale parameter. So, in contrast with 
         Law & Kelton and Banks (2000), a multiplication with beta is added.
         """
-        return self._beta * self._dist1.draw() / self._dist2.draw()
+        y1: float = self._dist1.draw()
+        y2: float = self._dist2.draw()
+        while y1 == 0.0 and y2 == 0.0:
+            # both gamma variates underflowed to zero: draw again
+            y1 = self._dist1.draw()
+            y2 = self._dist2.draw()
+        # a denominator that underflowed to zero gives an infinite ratio
+        return self._beta * y1 / y2 if y2 > 0.0 else math.inf
 
     def _set_stream(self, stream: StreamInterface):
         """Internal method to initialize the underlying distribution when
